@@ -19,7 +19,8 @@ HARNESS = {
     "h_l2r": (NSYNC_CORE + ["platform/linux/src/nsync_semaphore_futex.c", "platform/posix/src/time_rep.c"], [], []),
 }
 WRAPS = ["syscall", "clock_gettime", "nanosleep", "malloc", "free",
-         "nsync_mu_semaphore_p", "nsync_mu_semaphore_p_with_deadline", "nsync_mu_semaphore_v"]
+         "nsync_mu_semaphore_p", "nsync_mu_semaphore_p_with_deadline", "nsync_mu_semaphore_v",
+         "nsync_sem_wait_with_cancel_", "nsync_waiter_new_", "nsync_waiter_free_"]
 
 
 def run(cmd, **kw):
